@@ -64,6 +64,13 @@ ValueCases(op) ==
 LongCases(op) ==
    \A p \in {<<<<40003>>, <<1>>>>, <<<<20001, 2>>, <<2>>>>, <<<<20001, 1>>, <<1, 2>>>>, <<<<2, 20001>>, <<>>>>, <<<<1>>, <<40003>>>>} :
       PrintT(<<"CASE", ToJson([CaseOf(op, "f32", p[1], p[2]) EXCEPT !.feat = @ \o <<"long">>])>>)
+\* extents beyond 30 and around 64 (a shape pair must not be mistaken for another one whose digits add up alike): A = (p, q) against
+\* column, row, scalar and fixed small operands, compatible and incompatible
+WideShapes == {<<p, q>> : p \in 1..4, q \in {1, 2, 3, 4} \cup (30..35) \cup (62..66)}
+WideCases(op) ==
+   \A a \in WideShapes : \A b \in {<<a[1], 1>>, <<1, a[2]>>, <<>>, <<2, 1>>, <<1, 3>>, <<a[2]>>} :
+      PrintT(<<"CASE", ToJson([CaseOf(op, "f32", a, b) EXCEPT !.feat = @ \o <<"wide_extents">>])>>)
+      /\ (op = "MultidirectionalBroadcast" => PrintT(<<"CASE", ToJson([CaseOf(op, "f32", b, a) EXCEPT !.feat = @ \o <<"wide_extents">>])>>))
 \* tiling law (Outcome.tla): the flagged operands are repeated beyond a million elements by the harness
 TileVariants == {<<<<3, 2>>, <<2>>, {1}>>, <<<<3>>, <<1>>, {1}>>, <<<<1>>, <<3>>, {2}>>, <<<<3, 1>>, <<1, 2>>, {1}>>, <<<<3, 2>>, <<3, 1>>, {1, 2}>>, <<<<3>>, <<>>, {1}>>,
                  <<<<3, 2>>, <<3, 2>>, {1, 2}>>, <<<<3, 1, 2>>, <<2, 1>>, {1}>>}
@@ -73,7 +80,7 @@ TileCases(op) ==
       TileLaw(LAMBDA ins : IF op = "MultidirectionalBroadcast" THEN Multi(ins[1], ins[2]) ELSE Uni(ins[1], ins[2]), c.inputs, v[3]) =>
          PrintT(<<"CASE", ToJson([c EXCEPT !.feat = @ \o <<"tile_law">>] @@ [tile |-> TileField(v[3])])>>)
 Emit == /\ ~st.done
-        /\ (st.dt = "f32" /\ st.a = <<>> /\ st.b = <<>> => ValueCases(st.op) /\ LongCases(st.op) /\ TileCases(st.op))
+        /\ (st.dt = "f32" /\ st.a = <<>> /\ st.b = <<>> => ValueCases(st.op) /\ LongCases(st.op) /\ TileCases(st.op) /\ WideCases(st.op))
         /\ PrintT(<<"CASE", ToJson(CaseOf(st.op, st.dt, st.a, st.b))>>)
         /\ (st.dt = "f32" /\ Len(st.a) <= 2 /\ Len(st.b) <= 2 =>
               \A p \in MixedPairs : PrintT(<<"CASE", ToJson(MixedCase(st.op, p[1], p[2], st.a, st.b))>>))
